@@ -168,7 +168,7 @@ static int run_exec(const int *tids, int nt, const unsigned char *prefix, int np
         }
         shared->rc = sched_run(nt, bs, as, prefix, np, &shared->tr);
         for(int i = 0; i < nt; i++) memcpy(shared->obs[i], ts[i].obs, sizeof ts[i].obs);
-        _exit(0);
+        VF_EXIT(0);
     }
     int st = 0;
     while(waitpid(pid, &st, 0) < 0 && errno == EINTR) {}
